@@ -15,6 +15,11 @@ enum Turn {
 struct State {
     turn: Turn,
     finished: Vec<bool>,
+    /// Set when the running thread did not come back within the (real-time) grace period: it is
+    /// blocked on something a parked thread holds (a lock kept across a hook point). Cooperative
+    /// scheduling would hang there although real threads would merely contend, so everybody is
+    /// released and the run finishes unscheduled; it is counted, and its schedule is void.
+    free: bool,
 }
 
 pub struct Baton {
@@ -25,9 +30,24 @@ pub struct Baton {
 impl Baton {
     fn wait_for(&self, me: Turn) {
         let mut g = self.m.lock().unwrap();
-        while g.turn != me {
+        while g.turn != me && !g.free {
             g = self.cv.wait(g).unwrap();
         }
+    }
+    /// Coordinator side: wait for the baton, but not for ever. Returns false on timeout.
+    fn wait_for_coordinator(&self, grace: std::time::Duration) -> bool {
+        let mut g = self.m.lock().unwrap();
+        while g.turn != Turn::Coordinator {
+            let (g2, to) = self.cv.wait_timeout(g, grace).unwrap();
+            g = g2;
+            if to.timed_out() && g.turn != Turn::Coordinator {
+                g.free = true;
+                drop(g);
+                self.cv.notify_all();
+                return false;
+            }
+        }
+        true
     }
     fn hand_to(&self, t: Turn) {
         let mut g = self.m.lock().unwrap();
@@ -46,6 +66,9 @@ pub struct Yielder {
 impl Yielder {
     /// Statement boundary or hook yield point: give the baton back and wait to be chosen again.
     pub fn yield_now(&self) {
+        if self.baton.m.lock().unwrap().free {
+            return;
+        }
         self.baton.hand_to(Turn::Coordinator);
         self.baton.wait_for(Turn::Thread(self.me));
     }
@@ -53,6 +76,9 @@ impl Yielder {
         Yielder { baton: self.baton.clone(), me: self.me }
     }
 }
+
+/// Number of runs of this process in which the scheduler had to release all threads.
+pub static STUCK_RUNS: std::sync::atomic::AtomicU64 = std::sync::atomic::AtomicU64::new(0);
 
 pub struct ThreadSpec<T> {
     pub hash_seed: u64,
@@ -65,7 +91,7 @@ pub struct ThreadSpec<T> {
 /// Returns each thread's result, the sequence of decisions actually taken, and seam stats.
 pub fn run_scheduled<T: Send + 'static>(threads: Vec<ThreadSpec<T>>, prefs: &[u8]) -> (Vec<T>, Vec<u8>, Vec<SeamStats>) {
     let n = threads.len();
-    let baton = Arc::new(Baton { m: Mutex::new(State { turn: Turn::Coordinator, finished: vec![false; n] }), cv: Condvar::new() });
+    let baton = Arc::new(Baton { m: Mutex::new(State { turn: Turn::Coordinator, finished: vec![false; n], free: false }), cv: Condvar::new() });
     let mut handles = vec![];
     for (i, spec) in threads.into_iter().enumerate() {
         let b = baton.clone();
@@ -103,7 +129,11 @@ pub fn run_scheduled<T: Send + 'static>(threads: Vec<ThreadSpec<T>>, prefs: &[u8
         decisions.push(pick as u8);
         d += 1;
         baton.hand_to(Turn::Thread(pick));
-        baton.wait_for(Turn::Coordinator);
+        if !baton.wait_for_coordinator(std::time::Duration::from_secs(20)) {
+            // released: no further scheduling decisions; the threads run to completion
+            STUCK_RUNS.fetch_add(1, std::sync::atomic::Ordering::Relaxed);
+            break;
+        }
     }
     let mut results = vec![];
     let mut stats = vec![];
